@@ -273,6 +273,20 @@ def what(tag, toks, d):
     return "%s trace violates clause '%s' at step %s (diag %s)" % (comp, clause, step, d)
 
 
+def _safe(f, default):
+    def g(*a):
+        try:
+            return f(*a)
+        except Exception as e:  # a truncated / malformed line must not take the verdict down
+            return default(*a, e)
+    return g
+
+
+key = _safe(key, lambda tag, toks, d, e: "C05:undecodable:%s:%s" % (d, " ".join(map(str, (toks or [])[:60]))))
+what = _safe(what, lambda tag, toks, d, e: "trace violates the property (diag %s); case not decodable: %s" % (d, e))
+describe = _safe(describe, lambda t, e: {"raw": (t or [])[:200], "decode_error": str(e)})
+
+
 if __name__ == "__main__":
     ctx = Ctx("C05")
     ctx.assumptions = [
@@ -281,7 +295,9 @@ if __name__ == "__main__":
         "limits: 0 <= fdLimit, perPeerLimit for the caps, 1 <= for the no-residue theorem; the compiled-in ConcurrentFdDials / DefaultPerPeerRateLimit are re-read each run (obligation c05_default_caps_wf)",
         "worker: one event = one iteration of the select in dialWorker.loop; theorems hold for every order of request / timer / dial-update / close events and every environment answer carried by the event (existing connection, ranking, back-off table, addConn verdict, clock). wf_run: request ids fresh, each ranking lists an address once (c05_ranker_is_permutation + ma.Unique), a dial update arrives only for a dial in flight and is never ErrDialBackoff itself",
         "worker liveness is stated at quiescence (queue empty, nothing in flight): that the timer fires and every started dial reports are environment hypotheses; promptness of cancellation in wall-clock terms is not modelled",
-        "PARTIAL: the limiter monitor's clauses (caps, residue, live job attempted, dial invoked once) and the worker monitor's clause 3 (response justified) are judged on the implementation's traces only; the theorems prove the corresponding state invariants of the models (caps, no residue, at-most-once, exactly-once at quiescence, handed-once, eligible attempted), not `monitor(model_trace) = ok` as one statement. dial_sync (refcount, caller cancellation) and whole Swarm.DialPeer with concurrent callers are NOT modelled or driven in this round; concurrency finer than the listed atomic sections is covered by the correspondence only",
+        "PARTIAL (headline theorems): c05_limiter_monitor_holds_partial proves that monitor_lim (caps, residue, live job attempted) accepts every model trace; once_lim (a job's dialFunc invoked at most once) is judged on implementation traces only - it needs unique job identities and a disjointness invariant over the queues that the model does not carry. c05_worker_monitor_holds_partial proves that monitor_w never reports clauses 1, 2, 4 on a model trace; clause 3 (response justified) and clause 5 (every candidate attempted at quiescence) are judged on implementation traces only - they need a coupling between the monitor's environment bookkeeping (failed / ever-in-back-off / connection flags) and the statuses in trackedDials that is not built (state-level counterpart of 5: c05_all_eligible_attempted)",
+        "dialSync: atomic sections are getActiveDial and the locked tail of Dial; theorems over every interleaving of them (c05_sync_refcount, c05_sync_cancel_before_close, c05_sync_leaving_caller_keeps_shared_dial). Which of 'context cancelled' / 'reqch closed' the worker notices first is the scheduler's choice: the conformance accepts both orders, the monitor rejects only 'closed while the context is not cancelled'. The dialSync monitor itself is not proved over model traces (_partial)",
+        "PARTIAL (composition): whole Swarm.DialPeer with 1-6 concurrent callers is driven in a synctest bubble and judged by the monitor of SpecDialPeer.v only (exactly-once return to that very peer or error, address handed to a transport at most once while any caller waits, caps, cancelled caller released in the same step without ending the others' dials, nothing left - no transport dial, token, active dial or dial goroutine - once all returned); there is no composed model, the components are proved separately. Concurrency finer than the listed atomic sections is covered by the correspondence only",
         "ranker: addresses are the tuple of answers of the predicates the ranker evaluates (recorded from the real predicates); sort.Slice is a Section hypothesis (permutes its input), instantiated with stable insertion sort (what sort.Slice runs for <= 12 elements; cases have <= 10 addresses)",
         "DNS resolution, black-hole detector and back-off expiry are inputs (BackoffBase is set to 24h in the worker harness so entries do not expire in a case)",
     ]
@@ -305,6 +321,12 @@ if __name__ == "__main__":
              "1-7 addresses over TCP/QUIC/WS/WebTransport/relay/undialable/unspecified, back-off entries, inbound connections, close; after every "
              "stimulus the responses, transport dials, trackedDials, pendingRequests and connected flag are compared with the model and judged by "
              "the monitor; every case is drained to quiescence. Non-trivial = a request was pending and a dial started. "
+             "dialSync: seeded random cases against the real dialSync with a scripted worker function: up to 6 concurrent callers on 1-2 peers with "
+             "independent contexts, cancel / answer (conn or error) in any order; refCnt, existence of the active dial, workers started/stopped, shared "
+             "context state and the returns of every step compared with the model (either cancel/close observation order accepted). Non-trivial = a caller "
+             "was cancelled. DialPeer: seeded random cases of whole Swarm.DialPeer (real dialSync + worker + limiter with caps 1-3 / 1-4, scripted transports "
+             "that hang until ended or cancelled): 1-7 addresses of mixed classes, back-off left before, up to 6 concurrent callers with independent "
+             "cancellation and flags, virtual time; judged by the monitor only. Non-trivial = two callers inside at once and a transport dial started. "
              "ranker: DefaultDialRanker on 0-10 real multiaddrs of 19 kinds, output compared element by element. Non-trivial = >= 3 addresses "
              "with both IP versions. distinct = distinct case lines.",
         describe=describe, key=key, what=what, crosscheck=150,
